@@ -362,8 +362,8 @@ def run_master(case, choices):
                                     % (case["sig"], took, ctx()))
             if fam == "full" and case["sig"] == "TERM":
                 # per-client clause against the TERM time of the worker that served it (workers get TERM from the master's stop())
-                wt = min(state["worker_term"].values()) if state["worker_term"] else t_sig
-                judge_clients(res, case, clients, case["clients"], None, wt, gt, "full", ctx)
+                # the graceful window runs from the moment the master handles TERM (Arbiter.stop computes its limit then)
+                judge_clients(res, case, clients, case["clients"], None, t_sig, gt, "full", ctx)
         for name, tb in sim.escaped:
             res.violate("C04:%s:exception-escaped:%s" % (fam, name.rstrip("0123456789")), "an exception escaped %s: %s; %s" % (name, tb[-400:], ctx()))
         res.nontrivial = state["sent"] is not None
